@@ -58,7 +58,7 @@ CLASSES: List[Tuple[int, str, List[str], str, dict]] = [
     (43, "c18w", ["RegPoint"], "R", {}),
     # registration HISTORIES (set up in world()): 70 is registered only after a first, refused to_json; 72 is registered, used,
     # then registered again with another representation.  Afterwards both are ordinary registered types of every generated value.
-    # finding C18-d: classes that ALSO derive from a builtin type
+    # classes that ALSO derive from a builtin type (former finding C18-d, fixed by 8efc58f; inside F now)
     (80, "c18w", ["RegStatus"], "R", {"builtin": "int"}),
     (81, "c18w", ["RegCelsius"], "R", {"builtin": "float"}),
     (82, "c18w", ["RegPair"], "R", {"builtin": "tuple"}),
@@ -87,8 +87,8 @@ LOCAL = {cid for cid, _, q, _, _ in CLASSES if "<locals>" in q}            # kno
 NESTED = {cid for cid, _, q, k, _ in CLASSES if len(q) > 1 and k == "S" and "<locals>" not in q}   # in F since 70c605d
 INPLACE = {10, 21, 24, 31, 60}      # defining classes that extend super().to_json() in place (their heirs 12, 23, 26 too)
 UNBOUND = {cid for cid, _, _, _, h in CLASSES if h.get("unbound")}          # known-finding class K_unbound (C18-c)
-BUILTIN_BASE = {cid for cid, _, _, _, h in CLASSES if h.get("builtin")}     # known-finding class K_builtin_base (C18-d)
-FINDING_OF = {**{c: "C18-b" for c in LOCAL}, **{c: "C18-c" for c in UNBOUND}, **{c: "C18-d" for c in BUILTIN_BASE}}
+BUILTIN_BASE = {cid for cid, _, _, _, h in CLASSES if h.get("builtin")}     # also derive from int / float / str / list / tuple (in F)
+FINDING_OF = {**{c: "C18-b" for c in LOCAL}, **{c: "C18-c" for c in UNBOUND}}
 SER_OK = [cid for cid, _, q, k, _ in CLASSES if k == "S" and cid not in FINDING_OF]
 REG_OK = [cid for cid, _, q, k, _ in CLASSES if k == "R" and cid not in FINDING_OF]
 BUILTINS = {"int": int, "float": float, "str": str, "list": list, "tuple": tuple, "set": set}
@@ -171,7 +171,7 @@ def world() -> Dict[str, Any]:
                     self.own, self.kids = own, list(kids)
                 ns["__init__"] = init_list
             if how.get("builtin") == "str":           # the str content of the object is its payload
-                ns["__new__"] = lambda k, own="", kids=(): str.__new__(k, own)
+                ns["__new__"] = lambda k, own="", kids=(): str.__new__(k, own if isinstance(own, str) else "")
         else:
             bases = (cls[how["base"]],) if how.get("base") else ((BUILTINS[how["builtin"]],) if how.get("builtin") else ())
         c = type(qual[-1], bases, ns)
@@ -600,17 +600,11 @@ def gen_value(rng, list_depth: int, obj_depth: int, nested_p: float) -> list:
 
 
 def gen_finding(rng, list_depth: int, obj_depth: int) -> list:
-    """an object of one of the known-finding classes (K_local, K_unbound, K_builtin_base)"""
+    """an object of one of the known-finding classes (K_local, K_unbound)"""
     cid = rng.choice(sorted(FINDING_OF))
-    if cid == 80:
-        return ["o", 80, rng.choice([0, 1, 404, -7, 2 ** 70]), []]
-    if cid == 81:
-        return ["o", 81, rng.choice([0.5, -21.5, 1e10, 0.0]), []]
-    if cid == 82:
-        return ["o", 82, [rng.randint(-9, 9) for _ in range(rng.randint(0, 3))], []]
     if cid == 78:
         return ["o", 78, [[k, rng.randint(0, 9)] for k in sorted(rng.sample(["a", "b", "c"], rng.randint(0, 3)))], []]
-    own = rng.choice(["map", "", "é"]) if cid == 85 else rng.choice(OWNS)
+    own = rng.choice(OWNS)
     n = rng.choice([0, 1, 2])
     return ["o", cid, own, [gen_value(rng, list_depth, max(obj_depth - 1, 0), 0.0) for _ in range(n)]]
 
@@ -792,7 +786,7 @@ def run(tier: str, seed: int, replay=None) -> int:
     rep.rule = ("fixed edge list (every leaf kind incl. 2**70, +-inf, -0.0, lone surrogates, NUL, empty and 4-deep lists, every class of 3 subclass chains "
                 "of depth 1-4 in both styles of extending super().to_json() (copy / in-place), 15 registered third-party types (4 living in module builtins; one with its own to_json/from_json methods; histories run once per process in world(): registry singleton cleared and everything registered again on the new instance, a type registered only after a first refused to_json, a type registered twice with different representations) incl. two base/derived "
                 "pairs registered base-first, 2-4 different instances of one class as siblings / kids / parent-child in every 5th random value) + seeded grammar-directed random values (list depth <= 4, object depth <= 4, ~4% with a "
-                "a member of a known-finding class (K_local: function-local; K_unbound: not bound under its qualified name -- builtins.mappingproxy, name-mangled Planner.__State; K_builtin_base: also derives from int / float / str / list / tuple); classes nested in classes are ordinary members of the class pool); thorough adds all values of <= 4 nodes over a 7-leaf alphabet; "
+                "a member of a known-finding class (K_local: function-local; K_unbound: not bound under its qualified name -- builtins.mappingproxy, name-mangled Planner.__State); registered types and serialiser classes that also derive from int / float / str / list / tuple are ordinary members of the class pool; classes nested in classes are ordinary members of the class pool); thorough adds all values of <= 4 nodes over a 7-leaf alphabet; "
                 "non-trivial = contains at least one list or object; distinct = distinct value")
     ok_spec, log = core.coq_make(["Base/Sx.vo", "Json/JsonVal.vo", "Json/SerializerSpec.vo"])
     rep.oblige("build:spec", ok_spec, "" if ok_spec else core.first_error(log))
@@ -863,8 +857,8 @@ def run(tier: str, seed: int, replay=None) -> int:
             continue
         # known findings: narrow match = the class predicate AND the outcome the faithful model predicts (code 2); when the model
         # cannot be built, the defect behaviour recorded with the witness: C18-b ClassNotSerializableError at to_json,
-        # C18-c ClassNotFoundError at from_json, C18-d a value is returned (the object came back as the builtin it also is)
-        recorded = {"C18-b": im == [20, 5], "C18-c": im == [20, 4], "C18-d": im[0] == 0}
+        # C18-c ClassNotFoundError at from_json
+        recorded = {"C18-b": im == [20, 5], "C18-c": im == [20, 4]}
         if nested and (code == 2 or (not model_ok and any(recorded[k] for k in kfs))):
             kf_instances[kfs[0]] = kf_instances.get(kfs[0], 0) + 1
             continue
